@@ -9,6 +9,7 @@ B  MC_C05 (Http1.tla): TLC enumerates request/response heads (all 16 methods x t
    parse_response: every report must equal Meaning, hence all bodies give the same report."""
 import json, os
 import vlib
+from props import c10
 
 PID = "C05"
 BODIES = [b"", b"hello\r\nworld\r\n", b"X-Injected: 1\r\nHost: evil\r\n\r\nmore", b"\n\nline", bytes(range(256)), b"\x1f\x8b\x08\x00" + b"\xff" * 32,
@@ -46,6 +47,7 @@ def run(tier, v):
     fams = ["start", "hdrs", "ows", "cookie", "lang", "many", "dup", "long", "common"]
     n = n_heads = states = trans = 0
     samples = []
+    ref_none = {}
     for fam in fams:
         vec = os.path.join(wd, "vec-%s.ndjson" % fam)
         exp = {}
@@ -65,6 +67,48 @@ def run(tier, v):
         trans += r.generated
         out = os.path.join(wd, "obs-%s.ndjson" % fam)
         vlib.run_hv("http", vec, out)
+        # ---- the same heads as connections through the OUTPUT layer (process_ipv4_packet: packet parser, flow table, parsers,
+        # create_observable_package, matcher): what the caller is handed there -- the observable AND its rendered report -- must be the same
+        cvec = os.path.join(wd, "conn-%s.ndjson" % fam)
+        cmeta = []
+        conns = []
+        for i, e in exp.items():
+            if tier != "thorough" and fam in ("hdrs", "lang", "ows") and i % 4:
+                continue
+            head = ("\r\n".join(e["lines"]) + "\r\n\r\n").encode() + BODIES[(i % 2) * (len(BODIES) - 1)]
+            cip, sip, cp = (10, 5, 0, 1), (10, 5, 0, 2), 30000 + (i % 30000)
+            syn = c10.frame(cip, sip, cp, 80, 100, 0, 0x02, ipid=1)
+            data = c10.frame(cip, sip, cp, 80, 101, 1, 0x18, head, ipid=2) if e["kind"] == "req" else c10.frame(sip, cip, 80, cp, 1, 101, 0x18, head, ipid=2)
+            conns.append([syn.hex(), data.hex()])
+            cmeta.append(i)
+        vlib.write_ndjson(cvec, [{"id": 0, "op": "conns", "conns": conns}])
+        cout = os.path.join(wd, "connobs-%s.ndjson" % fam)
+        vlib.run_hv("http", cvec, cout)
+        for rows, i in zip(next(vlib.read_ndjson(cout))["out"], cmeta):
+            e = exp[i]
+            n += 1
+            last = rows[-1]
+            ctx = {"family": fam, "kind": e["kind"], "head_lines": e["lines"][:12], "via": "process_ipv4_packet (one segment after the SYN)"}
+            if last["r"] == "panic":
+                v.violation(dict(ctx, observed="panic: " + last["e"]))
+                continue
+            rep = last.get("req" if e["kind"] == "req" else "resp") if last["r"] == "ok" else None
+            if rep is None:
+                # a head the parser-level run did not report either is judged there
+                pl = ref_none.get((fam, i))
+                if not pl:
+                    v.violation(dict(ctx, observed="not reported (%s)" % last["r"], expected=e["exp"]))
+                continue
+            got = project(e["kind"], rep["v"])
+            d = diff(e["exp"], got)
+            fields = dict(x.strip().split(":", 1) for x in rep["line"].split("\n")[1:] if ":" in x)
+            if not d and fields.get("Sig", "").strip() != e["exp"]["text"]:
+                d = ["report line `Sig:`"]
+            if d:
+                alts_ok = any(not diff(a["exp"], got) and set(a["devs"]) <= K for a in e["alts"])
+                if alts_ok:
+                    continue
+                v.violation(dict(ctx, differing_fields=d, expected={k: e["exp"].get(k, e["exp"].get("text")) for k in d}, observed={k: got.get(k, fields.get("Sig")) for k in d}))
         for o in vlib.read_ndjson(out):
             e = exp[o["id"]]
             n_heads += 1
